@@ -60,8 +60,14 @@ class C02(Prop):
             order = "shuf" if kind != "O" else rng.choice(["inc", "dec", "shuf"])
             labels, order = gen.labels_of_kind(rng, kind, n, order)
             ax = {"name": "x", "kind": kind, "labels": labels, "_order": order}
+            if kind == "i" and rng.random() < 0.4:
+                ax["ldtype"] = rng.choice(["uint8", "uint16", "int32", "uint64"])     # (unsigned arithmetic wraps around)
+            elif kind == "f" and rng.random() < 0.3:
+                ax["ldtype"] = "float32"
+            # the axis may have been asked for its ordering before (cached flag from an earlier alignment)
+            ax["_warm"] = rng.random() < 0.5
             bounds = [None] + labels
-            if rng.random() < 0.3:
+            if rng.random() < 0.5:
                 bounds.append(gen.absent_label(rng, ax, frac=True))
             for s, e, st in itertools.product(bounds, bounds, steps):
                 yield {"op": "loc", "axis": ax, "ix": ["sl", s, e, st], "_src": "strict"}
@@ -70,7 +76,7 @@ class C02(Prop):
         c1 = c01.PROP
         for _ in range(n):
             rank = rng.choice([1, 2, 2, 3, 3, 4])
-            arr = gen.rand_array(rng, rank=rank, maxn=5)
+            arr = gen.dtype_variants(rng, gen.rand_array(rng, rank=rank, maxn=5))
             posmode = rng.random() < 0.3
             ixs, kinds = [], []
             for d in range(rank):
@@ -110,7 +116,7 @@ class C02(Prop):
     def gen(self, rng, tier):
         for c in self.grid(5):
             yield c
-        for c in self.strict_cases(rng, 25 if tier == "quick" else 400):
+        for c in self.strict_cases(rng, 50 if tier == "quick" else 600):
             yield c
         for c in self.nd_cases(rng, 400 if tier == "quick" else 20000):
             yield c
@@ -120,6 +126,8 @@ class C02(Prop):
         if c["op"] == "take":
             return c01.PROP.impl(c)
         ax = core.build_axis(c["axis"])
+        if c["axis"].get("_warm"):
+            ax.is_monotonic()
         ix = c01.py_index(c["ix"], c["axis"])
         n = len(c["axis"]["labels"])
 
